@@ -18,6 +18,7 @@ GRIDS = {
     "g3": {"volume_ratio": 1.3, "NTV": 51, "P_MIN": -3, "NT": 3},
     "g4": {"order": 4, "NTV": 47},          # 4th/5th-order finite-strain fit of F(T,V) in the QHA layer; the static
     "g5": {"order": 5, "NT": 2, "DT": 800, "DT_SAMPLE": 800},   # pressure of the property stays the cubic fit's
+    "g6": {"NT": 67, "DT": 25, "DT_SAMPLE": 25, "NTV": 70},     # axes longer than 64 points (round 7: block / chunk logic lives beyond the small grids)
 }
 DIMS = OrderedDict([
     ("nv", [6, 4, 12]),
@@ -26,7 +27,7 @@ DIMS = OrderedDict([
     ("system", [None] + synth.SYSTEMS + ["table:orthorhombic", "table:cubic", "table:hexagonal", "table:monoclinic"]),   # table:<s>: NO system requested, all 21 columns tabulated with the symmetry of <s> (explicit all-zero columns)
     ("compset", ["minimal", "nonzero", "full21"]),
     ("static", ["cubicfit", "generic"]),
-    ("grid", ["g0", "g1", "g2", "g3", "g4", "g5"]),
+    ("grid", ["g0", "g1", "g2", "g3", "g4", "g5", "g6"]),
     ("cwd", ["neutral", "decoy-inputs"]),
     ("rows", ["given", "reversed", "rotated"]),
     ("nm", [1, 2, 4]),                          # formula units per cell (header field of the phonon file)      # row order of the static table (lattice rows move with their volumes)
